@@ -90,7 +90,7 @@ def shapes(tier, seed):
     n = 80 if tier == 'quick' else 1500
     progs = []
     for i in range(n):
-        prog, syms = c02.random_program(rnd, rnd.randint(4, 8))
+        prog, syms = c02.random_program(rnd, rnd.randint(4, 8), rich_branches=False)
         prog = [st for st in prog if st[0] not in ('org',)]
         prog = [('align', C(4)) if st[0] == 'align' and st[1][0] == 'c' and st[1][1] > 8 else st for st in prog]
         # zero-length directives: first, last and 1-2 random positions
